@@ -514,6 +514,40 @@ func c02(r *Report) {
 				}
 			}
 		}
+		// the guard belongs to every loop that serves exchanges, not to handleLoop alone: wherever
+		// (*Proxy).handle is called round a loop, each round re-tests Hijacked() and leaves on true
+		for _, f := range w.Funcs("") {
+			if f.Blocks == nil {
+				continue
+			}
+			loops := natLoops(f)
+			for _, hc := range plainCalls(f, "(*M.Proxy).handle") {
+				inLoop := false
+				for _, l := range loops {
+					if l.Blocks[hc.Block()] {
+						inLoop = true
+					}
+				}
+				if !inLoop {
+					continue
+				}
+				g := G(f)
+				guarded := false
+				for _, h := range plainCalls(f, nHijcked) {
+					es := branchesOn(h)
+					if len(es) != 1 {
+						continue
+					}
+					back := g.PathTo([]ssa.Instruction{hc}, false, func(i ssa.Instruction) bool { return i == ssa.Instruction(h) }, func(i ssa.Instruction) bool { return i == ssa.Instruction(hc) })
+					again := g.PathTo(blockStart(es[0].True), true, nil, func(i ssa.Instruction) bool { return i == ssa.Instruction(hc) })
+					if back == nil && again == nil {
+						guarded = true
+					}
+				}
+				r.Sites++
+				r.Decide("path", "exchange loop around "+site(f, hc)+" leaves when the session was hijacked", guarded, "every way round the loop passes a Hijacked() test whose true edge leaves it", "a loop serves exchange after exchange without testing Session.Hijacked(): after a modifier hijacked the connection (inside a MITM tunnel served by this loop) the proxy reads the next request from it, runs modifiers on it and never hands the connection over", hc.Pos())
+			}
+		}
 		for _, f := range []*ssa.Function{handle, hcr} {
 			for _, h := range plainCalls(f, nHijcked) {
 				r.Sites++
